@@ -508,7 +508,7 @@ def tags_rule(rep, prog, cfg, hs, cases, common):
     from .C20 import fallback_verbatim
     tf = [b for b in prog.bodies.values() if b.kind == "AssocFn" and norm(b.name) == "<mpd_client::tag::Tag as core::convert::TryFrom<&'a str>>::try_from"]
     if len(tf) == 1:
-        fallback_verbatim(rep, "C14.tags", cfg + "/unknown tag names", tf[0], "tag::Tag", "Other", 1)
+        fallback_verbatim(rep, "C14.tags", cfg + "/unknown tag names", tf[0], "tag::Tag", "Other", 1, prog)
     else:
         rep.fail("C14.tags", cfg + "/unknown tag names", "mpd_client/src/tag.rs", "Tag::try_from not found (failing closed)")
     from .C03 import verbatim_rule
